@@ -494,6 +494,9 @@ func c06Headers(c *core.Ctx, rule string, m *serverModel) {
 				return true
 			},
 		}
+		if fn == nil {
+			return ff, nil
+		}
 		return ff, facts.PathFlow(fn, ff)
 	}
 	if helper == nil {
@@ -521,45 +524,104 @@ func c06Headers(c *core.Ctx, rule string, m *serverModel) {
 			continue // reported by R1
 		}
 		c.Analysed(facts.FuncName(h))
-		ff, flow := headerFlow(h)
+		// the status line may be written by the handler or by a same-package
+		// helper it hands the ResponseWriter to: helpers are followed in the
+		// context of each call, and the WriteHeader sites inside them are decided
+		// under the facts (headers already set) of the calling path
 		seenStatus := map[int64]bool{}
-		for _, ci := range facts.CallsIn(h) {
-			cc := ci.Common()
-			if !cc.IsInvoke() || cc.Method.Name() != "WriteHeader" {
-				continue
-			}
-			st, isC := facts.ConstInt(cc.Args[0])
-			if !isC {
-				c.Fail(rule, kname+"/status", ci.Pos(), "non-constant success status")
-				continue
-			}
-			seenStatus[st] = true
-			names, known := byStatus[st]
-			if !known {
-				if st/100 == 2 {
-					c.Fail(rule, sprintf("%s/%d", kname, st), ci.Pos(), sprintf("handler for %s answers %d, which the mandated-header table does not list for this endpoint", kname, st))
+		type verdict struct {
+			ok   bool
+			pos  token.Pos
+			name string
+			st   int64
+		}
+		verdicts := map[string]*verdict{}
+		var order []string
+		var evalSites func(fn *ssa.Function, ff facts.FlowFuncs, flow map[*ssa.BasicBlock]facts.DNF)
+		evalSites = func(fn *ssa.Function, ff facts.FlowFuncs, flow map[*ssa.BasicBlock]facts.DNF) {
+			for _, ci := range facts.CallsIn(fn) {
+				cc := ci.Common()
+				if !cc.IsInvoke() || cc.Method.Name() != "WriteHeader" {
+					continue
 				}
-				continue
-			}
-			for _, name := range names {
-				n++
-				optional := strings.HasSuffix(name, "?")
-				name = strings.TrimSuffix(name, "?")
-				ok := facts.AllAt(ff, flow, ci, func(t facts.Tokens) bool {
-					if t["hdr:"+name] {
-						return true
+				st, isC := facts.ConstInt(cc.Args[0])
+				if !isC {
+					c.Fail(rule, kname+"/status", ci.Pos(), "non-constant success status")
+					continue
+				}
+				seenStatus[st] = true
+				names, known := byStatus[st]
+				if !known {
+					if st/100 == 2 {
+						c.Fail(rule, sprintf("%s/%d", kname, st), ci.Pos(), sprintf("handler for %s answers %d, which the mandated-header table does not list for this endpoint", kname, st))
 					}
-					if optional {
-						for k := range t {
-							if strings.HasPrefix(k, "opt:") {
-								return true
+					continue
+				}
+				for _, name := range names {
+					optional := strings.HasSuffix(name, "?")
+					name = strings.TrimSuffix(name, "?")
+					ok := facts.AllAt(ff, flow, ci, func(t facts.Tokens) bool {
+						if t["hdr:"+name] {
+							return true
+						}
+						if optional {
+							for k := range t {
+								if strings.HasPrefix(k, "opt:") {
+									return true
+								}
 							}
 						}
+						return false
+					})
+					key := sprintf("%s/%d/%s", kname, st, name)
+					if fn != h {
+						key += "/in " + facts.FuncName(fn)
 					}
-					return false
-				})
-				c.Check(ok, rule, sprintf("%s/%d/%s", kname, st, name), ci.Pos(), name+" is set on every path to the status line", sprintf("%s answers %d on a path where the mandated header %s was not set", facts.FuncName(h), st, name))
+					v := verdicts[key]
+					if v == nil {
+						v = &verdict{ok: true, pos: ci.Pos(), name: name, st: st}
+						verdicts[key] = v
+						order = append(order, key)
+					}
+					v.ok = v.ok && ok
+				}
 			}
+		}
+		ff, _ := headerFlow(nil)
+		il := facts.NewInliner(&ff, func(g *ssa.Function) bool {
+			if g.Pkg != h.Pkg || g == helper {
+				return false
+			}
+			for _, other := range m.Handlers {
+				if other == g {
+					return false // a handler delegating to another handler: decided under that handler's own kind
+				}
+			}
+			takesWriter := false
+			for _, p := range g.Params {
+				if strings.HasSuffix(p.Type().String(), "http.ResponseWriter") {
+					takesWriter = true
+				}
+			}
+			return takesWriter && helperTouches(g, 2, func(in ssa.Instruction) bool {
+				ci, ok := in.(ssa.CallInstruction)
+				if !ok {
+					return false
+				}
+				cc := ci.Common()
+				return cc.IsInvoke() && cc.Method.Name() == "WriteHeader" || facts.CalleeName(cc) == "(net/http.Header).Set"
+			})
+		})
+		il.OnInlined = func(g *ssa.Function, flow map[*ssa.BasicBlock]facts.DNF) {
+			c.Analysed(facts.FuncName(g))
+			evalSites(g, ff, flow)
+		}
+		flow := facts.PathFlow(h, ff)
+		evalSites(h, ff, flow)
+		for _, key := range order {
+			v := verdicts[key]
+			n++
+			c.Check(v.ok, rule, key, v.pos, v.name+" is set on every path to the status line", sprintf("%s answers %d on a path where the mandated header %s was not set", facts.FuncName(h), v.st, v.name))
 		}
 		for st := range byStatus {
 			if !seenStatus[st] && !(kname == "ReqBlobUploadBlob" || kname == "ReqBlobGet") {
